@@ -213,7 +213,7 @@ package bbolt
 //@ func (*Bucket).spill
 //@   opaque
 //@   returns (err)
-//@   ensures b.tx == old(b.tx) && txframe(b.tx) && unsynced == old(unsynced) && nwrites == old(nwrites)
+//@   ensures b.tx == old(b.tx) && txframe(b.tx) && unsynced == old(unsynced) && nwrites == old(nwrites) && batchsame()
 //@   ensures b.tx.meta.pgid >= old(b.tx.meta.pgid) && b.tx.meta.pgid <= old(b.tx.meta.pgid) + 4294967296
 //@   ensures (b.tx.meta.pgid + 1) * b.tx.db.pageSize <= b.tx.db.datasz && b.tx.db.datasz >= 0 && b.tx.db.datasz <= common.MaxMapSize
 //@   ensures old(mapok(b.tx)) ==> mapok(b.tx)
